@@ -287,10 +287,17 @@ impl T {
             T::Cond(c, a, b) => format!("if {} then {} else {}", p(c), p(a), p(b)),
             T::Do(stmts, ret) => {
                 let mut s = String::from("do {\n");
-                for st in stmts {
-                    // statements stay unparenthesised so that assignments read naturally
+                for (idx, st) in stmts.iter().enumerate() {
+                    // statements stay unparenthesised so that assignments read naturally; a later
+                    // statement that starts with `-` would continue the line before it, so it is
+                    // written in (AST-transparent) parentheses
                     s.push_str("  ");
-                    s.push_str(&st.full());
+                    let text = st.full();
+                    if idx > 0 && text.starts_with('-') {
+                        s.push_str(&format!("({})", text));
+                    } else {
+                        s.push_str(&text);
+                    }
                     s.push('\n');
                 }
                 s.push_str("  return ");
